@@ -171,10 +171,10 @@ pub fn interpret(i: usize, body: &[Value], s: &Suspender<(), ()>) -> Option<usiz
                 blog(i, json!({"e": "panic", "k": kind, "m": ins["m"].clone()}));
                 match kind {
                     "static" => {
-                        let m: &'static str = Box::leak(format!("m{}", as_u64(&ins["m"])).into_boxed_str());
+                        let m: &'static str = Box::leak(crate::areas::co::panic_text(as_u64(&ins["m"])).into_boxed_str());
                         std::panic::panic_any(m)
                     }
-                    "owned" => std::panic::panic_any(format!("m{}", as_u64(&ins["m"]))),
+                    "owned" => std::panic::panic_any(crate::areas::co::panic_text(as_u64(&ins["m"]))),
                     _ => std::panic::panic_any(42u32),
                 }
             }
